@@ -143,7 +143,7 @@ def gen_random_script(rng, prop, long=False):
 
 
 def build_scripts(ctx, prop, tier):
-    rng = ctx.rng
+    rng = ctx.sub_rng("fam_proc.1")
     scripts = []
     stats = dict(cover_edges=0, cover_graphs=[], simulate_behaviours=0)
     flevel = 1 if prop == "C12" else 0
@@ -166,9 +166,9 @@ def build_scripts(ctx, prop, tier):
         r = ctx.tlc(name, "ProcReplay", mkcfg(init="RInit", next_="RNext", constants=consts),
                     args=["-dump", "dot,actionlabels", "graph"], timeout=300, heap="4g", expect_ok=True)
         inits, nodes, edges = vlib.parse_dot(os.path.join(r["dir"], "graph.dot"))
-        paths, nedges = vlib.transition_cover(inits, nodes, edges, maxlen=40, rng=rng,
+        paths, nedges = vlib.transition_cover(inits, nodes, edges, maxlen=40, rng=ctx.sub_rng("proc.cover"),
                                               limit=1500 if tier == "quick" else 12000)   # thorough: <= ~2 M events in all
-        base = fps_for(n, trig, mn, mx, rng)
+        base = fps_for(n, trig, mn, mx, ctx.sub_rng("proc.coverbase"))
         base.update(const=const, win=[600, 840], shadow=(prop == "C17"))
         for p in paths:
             steps = [nodes[x] for x in p if nodes.get(x)]
@@ -187,6 +187,7 @@ def build_scripts(ctx, prop, tier):
                 args=["-simulate", "file=sim,num=%d" % num, "-depth", "90", "-seed", str(ctx.seed)],
                 timeout=300, heap="2g")
     behs = vlib.parse_simulate(r["dir"], "sim")
+    rng = ctx.sub_rng("proc.random")            # from here on independent of the order of TLC's dumps
     base = fps_for(n, trig, mn, mx, rng)
     base.update(const=const, win=[1320, 300], shadow=(prop == "C17"))
     for bsteps in behs:
@@ -350,7 +351,7 @@ def run(ctx, only_scripts=None):
         # the storage layer behind a throttle that really throttles: real MotionProcessor -> real ThrottledRecorder ->
         # scripted storage with failing starts and stops (cuts, mid-trigger restarts); ThrMon.tla's pairing clauses
         import fam_throttle
-        tscripts = [dict(fam_throttle.gen_proc(ctx.rng), origin="proc") for _ in range(60 if tier == "quick" else 800)]
+        tscripts = [dict(fam_throttle.gen_proc(ctx.sub_rng("fam_proc.2")), origin="proc") for _ in range(60 if tier == "quick" else 800)]
         ttrace = fam_throttle.drive(ctx, tscripts, "c12thr")
         tviol, tnev = fam_throttle.judge(ctx, ttrace, "c12thrmon")
         tev = vlib.read_ndjson(ttrace)
@@ -391,7 +392,7 @@ def run(ctx, only_scripts=None):
         stats["e2e_runs_with_configured_window"] = len(wruns)
         # the disk gate behind a throttle that really throttles (drained bucket, refills during the motion run)
         import fam_throttle
-        tscripts = [dict(fam_throttle.gen_proc(ctx.rng), origin="proc") for _ in range(80 if tier == "quick" else 1000)]
+        tscripts = [dict(fam_throttle.gen_proc(ctx.sub_rng("fam_proc.3")), origin="proc") for _ in range(80 if tier == "quick" else 1000)]
         ttrace = fam_throttle.drive(ctx, tscripts, "c04thr")
         tviol, tnev = fam_throttle.judge(ctx, ttrace, "c04thrmon")
         tev = vlib.read_ndjson(ttrace)
@@ -509,7 +510,7 @@ def run(ctx, only_scripts=None):
 def config_lengths(ctx, tier):
     """C03's configuration quantifier at the daemon's front door: ParseConfig on generated config.toml files."""
     import subprocess, fam_e2e
-    rng = ctx.rng
+    rng = ctx.sub_rng("fam_proc.4")
     combos = [(0, 0, 0), (0, 0, 1), (1, 1, 0), (2, 2, 1), (0, 1, 0), (0, 5, 2), (10, 10, 5), (10, 600, 5), (3, 4, 0), (600, 600, 0)]
     for _ in range(10 if tier == "quick" else 200):
         mn = rng.choice([0, 1, 2, 5, 10, 59, 60, 300]); mx = mn + rng.choice([0, 0, 1, 2, 10, 590])
@@ -543,7 +544,7 @@ def real_sinks(ctx, tier, prop="C12"):
     provoked through the file system (the output directory is renamed away and back).  Ends with a long quiet stretch
     and one isolated motion frame whose recording must be exactly what C02/C03 demand."""
     import subprocess
-    rng = ctx.rng
+    rng = ctx.sub_rng("fam_proc.5")
     scripts = []
     for i in range(40 if tier == "quick" else 600):
         fps = rng.choice([1, 2, 3])
@@ -614,7 +615,7 @@ def raw_frames(ctx, tier, prop="C13"):
     non-square frames, arbitrary pixel values and telemetry words) through the parser the daemon selects; judged by
     RawFrame.tla on the bytes."""
     import base64, subprocess
-    rng = ctx.rng
+    rng = ctx.sub_rng("fam_proc.6")
     scripts = []
     n = 300 if tier == "quick" else 6000
     for i in range(n):
